@@ -793,8 +793,12 @@ def _cbrt_mod(u: int, p: int):
     return r
 
 
+K_MULT = 1
+
+
 def is_zero_fp(nodes, seed: int = 0, k: int = 3, assign_hook=None):
     """Decide  all(n == 0)  by random interpretation.  Returns (True, info) or (False, witness)."""
+    k = k * K_MULT          # the thorough tier multiplies the number of independent random interpretations
     nodes = [tonode(n) for n in nodes]
     prime = P
     for n in nodes:
